@@ -149,13 +149,13 @@ def model_and_replay(rep, kind, scs, tag, invariants, liveness=True, variant="sc
         vlib.tlc_must_pass(res, tag)
     # 2. liveness under weak fairness (no edge log)
     if liveness:
-        res2 = vlib.run_tlc(mc, _cfg(tag + "_live", "FairSpec", [], ["Termination"], False), tag + "_live",
+        res2 = vlib.run_tlc(mc, _cfg(tag + "_live", "FairSpec", [], ["Termination", "RefinesContract"], False), tag + "_live",
                             workers=16, timeout=timeout, heap="16g")
         rep.add_tlc(res2)
         if not res2["ok"]:
             if res2["violated"]:
                 rep.violation("%s:spec:Termination" % key,
-                              "TLC: %s (Termination under weak fairness) on %s" % (res2["violated"], module),
+                              "TLC: %s (Termination under weak fairness / refinement of FileContract) on %s" % (res2["violated"], module),
                               dict(tlc=S.tlc_violation_trace(res2)[:6000]))
                 return None
             vlib.tlc_must_pass(res2, tag + " liveness")
